@@ -25,7 +25,7 @@ ITERATING_KINDS = {'gen', 'map', 'zip', 'range_iter', 'set_iter', 'list_iter', '
 INJ.install()
 
 EXPRS = ['n', 'n + 1', 'a', 'h1', 'str(h1)', 'len(h2)', 'undefined_name', '1/0', 'n +', 'h1.nope', 'raise_base()',
-         'G_INT', 'g_helper(n)', 'self', 'h2[0]', "{'k': n}"]
+         'G_INT', 'g_helper(n)', 'self', 'h2[0]', "{'k': n}", 'err', 'ERRS[-1]', 'ERRS[0]', 'ERRS[0]']
 CONDS = [None, None, 'True', 'n >= 0', 'n > 100', '1/0', 'raise_base()', 'undefined', 'h1']
 ALL_KINDS = (values.SCALAR_KINDS + values.CONTAINER_KINDS + values.NODICT_KINDS + values.HOSTILE_KINDS +
              ['mailbox', 'gen', 'map', 'zip', 'list_iter', 'mailbox'] * 4)
@@ -53,7 +53,7 @@ class C01(Prop):
     quick_examples = 500
     thorough_examples = 1500
     floors = {'tp_reached': 0.5, 'fault_fired': 0.25, 'hostile_in_scope': 0.15, 'plugin_fault': 0.1,
-              'plugin_fault_fired': 0.05}
+              'plugin_fault_fired': 0.05, 'kept_exception_watched': 0.03}
 
     def strategy(self, tier):
         where_line = st.tuples(st.just('stmt'), st.integers(0, 60)).map(list)
@@ -209,6 +209,10 @@ def run_case(self, recipe):
         out.cls('hostile_in_scope')
     if recipe['plugin_fault']:
         out.cls('plugin_fault')
+    kept = [x for x in base.log if x and x[0] == 'kept-exceptions']
+    if kept and kept[0][1] and any(e in ('err', 'ERRS[-1]', 'ERRS[0]') for t in recipe['tps'] for e in t['exprs']
+                                   if t['action'] in ('snapshot', 'snapshot+log', 'log', 'capture')):
+        out.cls('kept_exception_watched')
 
     def judge(res, handler, label, fired):
         obs = res.observation()
